@@ -26,7 +26,24 @@ const fnEngineStart = modPath + "/pkg/scan.Engine.Start"
 const fnLogResults = modPath + "/command/log.Logger.LogResults"
 
 func engineCallers(p *Prog) []*ssa.Function {
-	return p.FuncsCalling(func(c *ssa.CallCommon) bool { return IsCallTo(c, fnEngineStart) })
+	direct := p.FuncsCalling(func(c *ssa.CallCommon) bool { return IsCallTo(c, fnEngineStart) })
+	// a thin adapter whose Start only forwards to the wrapped engine's Start stands for the engine: its
+	// callers are the engine callers
+	fwd := map[*ssa.Function]bool{}
+	var out []*ssa.Function
+	for _, f := range direct {
+		if isPlainForwarder(f, "Start") {
+			fwd[f] = true
+			continue
+		}
+		out = append(out, f)
+	}
+	if len(fwd) > 0 {
+		for _, f := range p.FuncsCalling(func(c *ssa.CallCommon) bool { return fwd[StaticCallee(c)] }) {
+			out = append(out, f)
+		}
+	}
+	return out
 }
 
 func runC16(p *Prog, r *Report) {
@@ -218,7 +235,7 @@ func checkCancelOrder(p *Prog, r *Report, fn *ssa.Function, rule, rule3 string) 
 		return false
 	}
 	// R3: engine and logger run under the derived context
-	r.Check(isDerivedCtx(start.Call.Args[0]) && startAfter(fn, wc, start), rule3, name+"/engine-ctx", pos, "the engine is started with the derived (cancellable) context", "Start does not receive the context derived by WithCancel")
+	r.Check(isDerivedCtx(methodArgs(&start.Call)[0]) && startAfter(fn, wc, start), rule3, name+"/engine-ctx", pos, "the engine is started with the derived (cancellable) context", "Start does not receive the context derived by WithCancel")
 	logOK := false
 	for _, f := range append([]*ssa.Function{fn}, fn.AnonFuncs...) {
 		for _, b := range f.Blocks {
